@@ -144,20 +144,6 @@ Fixpoint fsteps_spec (st:field * option field) (steps:list val) (rets:list field
 Definition vfstate (x:field * option field * list field) : val :=
   let '(s, tg, rs) := x in VL [vfield s; vopt vfield tg; VL (map vfield rs)].
 
-(* sort_on in place writes through h5py slice assignment: a never-written (0-row) indexed string
-   column keeps its empty index dataset *)
-Definition spec_sort_on (cols:frame) (keys:list Z) (ddf:option frame) : option (frame * option frame) :=
-  match ddf with
-  | Some _ => spec_sort cols keys ddf
-  | None =>
-    match spec_sort cols keys None with
-    | Some (c', o) =>
-      Some (map (fun p:(Z * field) * (Z * field) =>
-                   if field_len (snd (fst p)) =? 0 then fst p else snd p) (combine cols c'), o)
-    | None => None
-    end
-  end.
-
 Definition spec_step (w:world) (s:step) : option world :=
   let go (src:Z) (dst:option Z) (f:frame -> option frame -> option (frame * option frame)) : option world :=
     match wget w src with
